@@ -816,18 +816,31 @@ class PhaseField(_IModel):
 
             tic.Tac("Split", "Invariants", False)
 
+            # The cases below are selected per (element, gauss point) with boolean masks:
+            # plain arrays from here on, the projectors are turned back into fields at the end.
+            scale_e_pg = np.asarray(Trace(matrix_e_pg @ matrix_e_pg))
+            I1_e_pg, I2_e_pg, I3_e_pg = (
+                np.asarray(I1_e_pg),
+                np.asarray(I2_e_pg),
+                np.asarray(I3_e_pg),
+            )
+            mat_e_pg = np.asarray(matrix_e_pg)
+            Id_e_pg = np.asarray(I_e_pg)
+
             g_e_pg = I1_e_pg**2 - 3 * I2_e_pg
+            # g = 3/2 ||dev||^2 >= 0: round-off can make it slightly negative, and a tensor is
+            # treated as spherical when its deviator is negligible against the tensor itself.
+            g_neq_0 = g_e_pg > 1e-24 * scale_e_pg
+            g_e_pg = np.where(g_neq_0, g_e_pg, 1.0)
             sqrt_g_e_pg = np.sqrt(g_e_pg)
 
-            g_neq_0 = g_e_pg != 0
-
-            arg = 1 / 2 * (2 * I1_e_pg**3 - 9 * I1_e_pg * I2_e_pg + 27 * I3_e_pg)
-            np.divide(
-                arg,
-                g_e_pg ** (3 / 2),
-                out=arg,
-                where=g_neq_0,
+            arg = (
+                1
+                / 2
+                * (2 * I1_e_pg**3 - 9 * I1_e_pg * I2_e_pg + 27 * I3_e_pg)
+                / g_e_pg ** (3 / 2)
             )
+            arg = np.clip(np.where(g_neq_0, arg, 0.0), -1, 1)
 
             # Lode's angle such that 0 <= theta <= pi/3
             theta = 1 / 3 * np.arccos(arg)
@@ -841,16 +854,22 @@ class PhaseField(_IModel):
             val3_e_pg = I1_e_pg / 3
 
             # Init proj matrices
-            M1 = FeArray.zeros(*matrix_e_pg.shape)
+            M1 = np.zeros(mat_e_pg.shape)
             M1[..., 0, 0] = 1
             # M2 = FeArray.zeros(*matrix_e_pg.shape)
             # M2[..., 1, 1] = 1
-            M3 = FeArray.zeros(*matrix_e_pg.shape)
+            M3 = np.zeros(mat_e_pg.shape)
             M3[..., 2, 2] = 1
 
             tic.Tac("Split", "proj case 4", False)
 
-            I_rg = 1 / 3 * ((I1_e_pg - sqrt_g_e_pg) * I_e_pg)
+            I_rg = 1 / 3 * (I1_e_pg - sqrt_g_e_pg)[..., np.newaxis, np.newaxis] * Id_e_pg
+            inv_sqrt_g = (g_e_pg ** (-1 / 2))[..., np.newaxis, np.newaxis]
+
+            # The cases are told apart per (element, gauss point), with a tolerance on cos(3 theta):
+            # exact comparisons on arccos(...) miss every repeated eigenvalue that is not exactly
+            # representable, and then divide by a vanishing eigenvalue gap.
+            tol = 1e-12
 
             # -------------------------------------
             # 2. Two maximum eigenvalues
@@ -858,18 +877,20 @@ class PhaseField(_IModel):
             # arg = -1
             # -------------------------------------
 
-            test2 = g_neq_0 & (theta == np.pi / 3)
+            case2 = g_neq_0 & (arg <= -1 + tol)
 
-            case2 = np.unique(np.where(test2)[0])
-
-            if len(case2) > 0:
+            if case2.any():
                 val1_e_pg[case2] += -2 / 3 * sqrt_g_e_pg[case2]
                 val2_e_pg[case2] += 1 / 3 * sqrt_g_e_pg[case2]
                 val3_e_pg[case2] += 1 / 3 * sqrt_g_e_pg[case2]
 
-                M1[case2] = (g_e_pg ** (-1 / 2) * (I_rg - matrix_e_pg))[case2]
+                # M1 = (A - e2 I) / (e1 - e2) with e2 = (I1 + sqrt(g)) / 3 and e1 - e2 = -sqrt(g)
+                I_rg2 = (
+                    1 / 3 * (I1_e_pg + sqrt_g_e_pg)[..., np.newaxis, np.newaxis] * Id_e_pg
+                )
+                M1[case2] = (inv_sqrt_g * (I_rg2 - mat_e_pg))[case2]
                 # M2[case2] = 1 / 2 * (I_e_pg - M1)[case2]
-                M3[case2] = 1 / 2 * (I_e_pg - M1)[case2]
+                M3[case2] = 1 / 2 * (Id_e_pg - M1)[case2]
 
                 tic.Tac("Split", "proj case 2", False)
 
@@ -879,17 +900,15 @@ class PhaseField(_IModel):
             # arg = 1
             # -------------------------------------
 
-            test3 = g_neq_0 & (theta == 0)
+            case3 = g_neq_0 & (arg >= 1 - tol)
 
-            case3 = np.unique(np.where(test3)[0])
-
-            if len(case3) > 0:
+            if case3.any():
                 val1_e_pg[case3] += -1 / 3 * sqrt_g_e_pg[case3]
                 val2_e_pg[case3] += -1 / 3 * sqrt_g_e_pg[case3]
                 val3_e_pg[case3] += 2 / 3 * sqrt_g_e_pg[case3]
 
-                M3[case3] = (g_e_pg ** (-1 / 2) * (matrix_e_pg - I_rg))[case3]
-                M1[case3] = 1 / 2 * (I_e_pg - M3)[case3]
+                M3[case3] = (inv_sqrt_g * (mat_e_pg - I_rg))[case3]
+                M1[case3] = 1 / 2 * (Id_e_pg - M3)[case3]
                 # M2[case3] = 1 / 2 * (I_e_pg - M3)[case3]
 
                 tic.Tac("Split", "proj case 3", False)
@@ -899,13 +918,9 @@ class PhaseField(_IModel):
             # 𝜖1 < 𝜖2 < 𝜖3 ⇐⇒ 𝑔 ≠ 0, 𝜃 ≠ 0, 𝜃 ≠ 𝜋∕3.
             # -------------------------------------
 
-            test1 = g_neq_0 & (theta != 0) & (theta != np.pi / 3)
+            case1 = g_neq_0 & ~case2 & ~case3
 
-            case1 = np.setdiff1d(
-                np.unique(np.where(test1)[0]), np.union1d(case2, case3)
-            )
-
-            if len(case1) > 0:
+            if case1.any():
                 val1_e_pg[case1] += (
                     2 / 3 * (sqrt_g_e_pg * np.cos(2 * np.pi / 3 + theta))[case1]
                 )
@@ -915,10 +930,10 @@ class PhaseField(_IModel):
                 val3_e_pg[case1] += 2 / 3 * (sqrt_g_e_pg * np.cos(theta))[case1]
 
                 # Compute projectors only on the case1 subset — avoids full-(Ne,nPg) matmuls
-                v1_c1 = val1_e_pg[case1]
-                v2_c1 = val2_e_pg[case1]
-                v3_c1 = val3_e_pg[case1]
-                mat_c1 = matrix_e_pg[case1]
+                v1_c1 = val1_e_pg[case1][:, np.newaxis, np.newaxis]
+                v2_c1 = val2_e_pg[case1][:, np.newaxis, np.newaxis]
+                v3_c1 = val3_e_pg[case1][:, np.newaxis, np.newaxis]
+                mat_c1 = mat_e_pg[case1]
 
                 M1[case1] = (
                     (mat_c1 - v2_c1 * np.eye(3))
@@ -941,9 +956,9 @@ class PhaseField(_IModel):
             eigs_e_pg[:, :, 1] = val2_e_pg
             eigs_e_pg[:, :, 2] = val3_e_pg
 
-            M1 = normalize_matrix(M1)
+            M1 = normalize_matrix(FeArray.asfearray(M1))
             # M2 = normalize_matrix(M2)
-            M3 = normalize_matrix(M3)
+            M3 = normalize_matrix(FeArray.asfearray(M3))
 
             M2 = I_e_pg - (M1 + M3)
 
